@@ -491,7 +491,8 @@ def leaf_operand(draw, G, S, square=False, kind=None):
     if kind == 'id':
         return {'k': 'id', 'in': S}
     if kind == 'hom':
-        ty = draw(st.sampled_from(['py_float', 'py_int', 'jax_0d', 'jax_0d_weak', 'np_f32']))
+        # (np_0d: a mutable 0-d numpy array, the one scalar flavour that an in-place update could corrupt)
+        ty = draw(st.sampled_from(['py_float', 'py_int', 'jax_0d', 'jax_0d_weak', 'np_f32', 'np_0d']))
         v = draw(st.sampled_from(VALS))
         if ty == 'py_int':
             v = int(v) or 2
@@ -883,8 +884,8 @@ def snippet(draw, G, S, near=False):
     if name == 'identity':
         return [{'k': 'id', 'in': S}]
     if name == 'scalars':
-        a = {'k': 'hom', 'in': S, 'value': draw(st.sampled_from(VALS)), 'ty': 'py_float'}
-        b = {'k': 'hom', 'in': S, 'value': draw(st.sampled_from(VALS)), 'ty': draw(st.sampled_from(['py_float', 'jax_0d']))}
+        a = {'k': 'hom', 'in': S, 'value': draw(st.sampled_from(VALS)), 'ty': draw(st.sampled_from(['py_float', 'py_float', 'np_0d']))}
+        b = {'k': 'hom', 'in': S, 'value': draw(st.sampled_from(VALS)), 'ty': draw(st.sampled_from(['py_float', 'jax_0d', 'np_0d']))}
         mid = [leaf_operand(draw, G, S, square=True)] if draw(st.booleans()) else []
         return [a] + mid + [b]
     if name == 'inverse':
